@@ -78,4 +78,260 @@ theorem C06_rows (rint : K → ℤ) (cos : K → K) (X : Traj K) (M interval : K
     simp only [Option.getD_some, Nat.cast_one]
     rfl
 
+/-- the time axis for evenly spaced frames: row k is at (k+1)·interval·dt (both samplings use `self.time`) -/
+theorem C06_time (X : Traj K) (interval : K) (k : ℕ) (hts : ∀ j, X.ts j = X.ts 0 + (j : K) * interval) :
+    time X k = ((k + 1 : ℕ) : K) * interval * X.dt := by
+  unfold time; rw [hts (k + 1)]; push_cast; ring
+
+/-- `LogDynamics.relaxation`: row k = the same quantities for the single pair (frame 0, frame k+1);
+h-matrix, neighbour list and condition of frame 0; χ4 column 0 -/
+theorem C06_log (rint : K → ℤ) (cos : K → K) (X : Traj K) (k : ℕ) (hd : X.d = 2 ∨ X.d = 3) (hk : k + 1 < X.T) :
+    (Impl.logRelaxation rint cos X k).t = (Spec.logRow rint cos X (k + 1)).t ∧
+    (Impl.logRelaxation rint cos X k).isf = (Spec.logRow rint cos X (k + 1)).isf ∧
+    (Impl.logRelaxation rint cos X k).qt = (Spec.logRow rint cos X (k + 1)).qt ∧
+    (Impl.logRelaxation rint cos X k).x4 = (Spec.logRow rint cos X (k + 1)).x4 ∧
+    (Impl.logRelaxation rint cos X k).msd = (Spec.logRow rint cos X (k + 1)).msd ∧
+    (Impl.logRelaxation rint cos X k).alpha2 = (Spec.logRow rint cos X (k + 1)).alpha2 := by
+  have hcmp := (C06_overlap_mode X).2
+  have haf := C06_alpha2factor (K := K) X.d hd
+  have hisf := logLoop_eq X.T (fun n => pairIsf cos X (dispTab rint X (Impl.logFr n)).get 0) k hk
+  have hq := logLoop_eq X.T (fun n => pairQ (Impl.logCmp X) X (dispTab rint X (Impl.logFr n)).get 0) k hk
+  have h2 := logLoop_eq X.T (fun n => pairR2 X (dispTab rint X (Impl.logFr n)).get 0) k hk
+  have h4 := logLoop_eq X.T (fun n => pairR4 X (dispTab rint X (Impl.logFr n)).get 0) k hk
+  refine ⟨rfl, hisf, ?_, rfl, h2, ?_⟩
+  · exact hq.trans (by rw [hcmp]; rfl)
+  · show logAlpha2 _ _ _ = _
+    unfold logAlpha2
+    erw [h2, h4, haf]
+    simp only [Option.getD_some, Nat.cast_one]
+    rfl
+
+/-- with a single origin the definition's χ4 = N(⟨Q²⟩ − ⟨Q⟩²) is 0, the value the log variant returns -/
+theorem C06_log_chi4 (M Q : K) : M * (Q * Q / 1 - (Q / 1) * (Q / 1)) = 0 := by ring
+
+/-- the displacement array of one iteration: `pos_end − pos_init`; minimum image with the regenerated
+h-matrix frame only when only wrapped coordinates were given; then, when a neighbour file was given,
+minus the mean displacement of the neighbours listed for that particle in frame `p.nbf` -/
+theorem C06_cage (rint : K → ℤ) (X : Traj K) (p : Fr) (i k : ℕ) :
+    pbcDisp rint X p i k =
+      (if X.pbc then Pbc.removePbc X.d rint (X.H p.hm) (X.Hinv p.hm) X.ppp
+          (fun k => X.pos p.fin i k - X.pos p.init i k) k
+       else X.pos p.fin i k - X.pos p.init i k) ∧
+    disp rint X p i k =
+      (if X.cage then pbcDisp rint X p i k
+          - ((X.nb p.nbf i).map (fun j => pbcDisp rint X p j k)).sum / (((X.nb p.nbf i).length : ℕ) : K)
+       else pbcDisp rint X p i k) := by
+  constructor
+  · unfold pbcDisp; split <;> rfl
+  · unfold disp dispTab
+    cases hc : X.cage <;> simp [Tab2.get_tab, cageRel, lsum_eq]
+
+/-- wrapped coordinates with periodic flags give the same numbers as unwrapped coordinates whenever no
+true displacement reaches half a box length on a periodic axis: `x = xu + (integer lattice vector on the
+periodic axes)` per frame and particle, constant cell with `Hinv` its two-sided inverse (`np.linalg.inv`
+contract), `rint` meeting the `np.rint` contract.  Holds for the displacement arrays (also after
+cage-relative subtraction), hence for every row of both samplings. -/
+theorem C06_wrapped_eq_unwrapped (rint : K → ℤ) (hr : IsRintHE rint) (cos : K → K) (X : Traj K)
+    (xu : ℕ → ℕ → ℕ → K) (m : ℕ → ℕ → ℕ → ℤ) (H Hinv : ℕ → ℕ → K)
+    (hH : ∀ f, X.H f = H) (hHi : ∀ f, X.Hinv f = Hinv)
+    (hinv : Pbc.IsInv X.d H Hinv) (hinv' : Pbc.IsInv X.d Hinv H)
+    (hp : ∀ a < X.d, X.ppp a = 0 ∨ X.ppp a = 1) (hpbc : X.pbc = true)
+    (hx : ∀ f i k, X.pos f i k = xu f i k + Pbc.vecMul X.d (fun a => (m f i a : K) * X.ppp a) H k)
+    (hhalf : ∀ o e i, ∀ a < X.d, X.ppp a = 1 →
+      |Pbc.frac X.d Hinv (fun k => xu e i k - xu o i k) a| < 1/2) :
+    let Xu : Traj K := { X with pos := xu, pbc := false }
+    (∀ p i, ∀ k < X.d, disp rint X p i k = disp rint Xu p i k) ∧
+    (∀ k, Impl.relaxation rint cos X k = Impl.relaxation rint cos Xu k) ∧
+    (∀ k, Impl.logRelaxation rint cos X k = Impl.logRelaxation rint cos Xu k) := by
+  intro Xu
+  have hU : ∀ p i, ∀ k < X.d, pbcDisp rint X p i k = pbcDisp rint Xu p i k := by
+    intro p i k hk
+    have hu : pbcDisp rint Xu p i k = xu p.fin i k - xu p.init i k := rfl
+    rw [hu]
+    unfold pbcDisp
+    simp only [hpbc, if_true, hH, hHi]
+    have hraw : (fun k => X.pos p.fin i k - X.pos p.init i k)
+        = fun k => (xu p.fin i k - xu p.init i k)
+            + Pbc.vecMul X.d (fun a => ((m p.fin i a - m p.init i a : ℤ) : K) * X.ppp a) H k := by
+      funext k
+      rw [hx, hx]
+      have : (fun a => ((m p.fin i a - m p.init i a : ℤ) : K) * X.ppp a)
+          = fun a => (m p.fin i a : K) * X.ppp a - (m p.init i a : K) * X.ppp a := by
+        funext a; push_cast; ring
+      rw [this, vecMul_sub]; ring
+    rw [hraw]
+    exact removePbc_wrapped X.d rint hr H Hinv X.ppp _ _ hinv hinv' hp (hhalf p.init p.fin i) k hk
+  have hD : ∀ p i, ∀ k < X.d, disp rint X p i k = disp rint Xu p i k := by
+    intro p i k hk
+    rw [(C06_cage rint X p i k).2, (C06_cage rint Xu p i k).2]
+    show (if X.cage then _ else _) = (if X.cage then _ else _)
+    split
+    · rw [hU p i k hk]
+      congr 3
+      exact List.map_congr_left fun j _ => hU p j k hk
+    · exact hU p i k hk
+  have hpair : ∀ (cmp : K → K → Bool) p f,
+      pairIsf cos X (dispTab rint X p).get f = pairIsf cos Xu (dispTab rint Xu p).get f ∧
+      pairQ cmp X (dispTab rint X p).get f = pairQ cmp Xu (dispTab rint Xu p).get f ∧
+      pairR2 X (dispTab rint X p).get f = pairR2 Xu (dispTab rint Xu p).get f ∧
+      pairR4 X (dispTab rint X p).get f = pairR4 Xu (dispTab rint Xu p).get f := by
+    intro cmp p f
+    exact pair_congr cos cmp X _ _ (fun i k hk => hD p i k hk) f
+  have e1 : ∀ (g : ℕ → ℕ → Fr) (c : ℕ → ℕ → ℕ),
+      (fun n nn => pairIsf cos X (dispTab rint X (g n nn)).get (c n nn))
+        = fun n nn => pairIsf cos Xu (dispTab rint Xu (g n nn)).get (c n nn) :=
+    fun g c => funext fun n => funext fun nn => (hpair (fun _ _ => true) _ _).1
+  have e2 : ∀ cmp (g : ℕ → ℕ → Fr) (c : ℕ → ℕ → ℕ),
+      (fun n nn => pairQ cmp X (dispTab rint X (g n nn)).get (c n nn))
+        = fun n nn => pairQ cmp Xu (dispTab rint Xu (g n nn)).get (c n nn) :=
+    fun cmp g c => funext fun n => funext fun nn => (hpair cmp _ _).2.1
+  have e2' : ∀ cmp (g : ℕ → ℕ → Fr) (c : ℕ → ℕ → ℕ),
+      (fun n nn => pairQ cmp X (dispTab rint X (g n nn)).get (c n nn) * pairQ cmp X (dispTab rint X (g n nn)).get (c n nn))
+        = fun n nn => pairQ cmp Xu (dispTab rint Xu (g n nn)).get (c n nn)
+            * pairQ cmp Xu (dispTab rint Xu (g n nn)).get (c n nn) :=
+    fun cmp g c => funext fun n => funext fun nn => by rw [(hpair cmp _ _).2.1]
+  have e3 : ∀ (g : ℕ → ℕ → Fr) (c : ℕ → ℕ → ℕ),
+      (fun n nn => pairR2 X (dispTab rint X (g n nn)).get (c n nn))
+        = fun n nn => pairR2 Xu (dispTab rint Xu (g n nn)).get (c n nn) :=
+    fun g c => funext fun n => funext fun nn => (hpair (fun _ _ => true) _ _).2.2.1
+  have e4 : ∀ (g : ℕ → ℕ → Fr) (c : ℕ → ℕ → ℕ),
+      (fun n nn => pairR4 X (dispTab rint X (g n nn)).get (c n nn))
+        = fun n nn => pairR4 Xu (dispTab rint Xu (g n nn)).get (c n nn) :=
+    fun g c => funext fun n => funext fun nn => (hpair (fun _ _ => true) _ _).2.2.2
+  refine ⟨hD, ?_, ?_⟩
+  · intro k
+    unfold Impl.relaxation
+    dsimp only
+    rw [e1, e2, e2', e3, e4]
+    rfl
+  · intro k
+    have l1 : (fun n => pairIsf cos X (dispTab rint X (Impl.logFr n)).get 0)
+        = fun n => pairIsf cos Xu (dispTab rint Xu (Impl.logFr n)).get 0 :=
+      funext fun n => (hpair (fun _ _ => true) _ _).1
+    have l2 : ∀ cmp, (fun n => pairQ cmp X (dispTab rint X (Impl.logFr n)).get 0)
+        = fun n => pairQ cmp Xu (dispTab rint Xu (Impl.logFr n)).get 0 :=
+      fun cmp => funext fun n => (hpair cmp _ _).2.1
+    have l3 : (fun n => pairR2 X (dispTab rint X (Impl.logFr n)).get 0)
+        = fun n => pairR2 Xu (dispTab rint Xu (Impl.logFr n)).get 0 :=
+      funext fun n => (hpair (fun _ _ => true) _ _).2.2.1
+    have l4 : (fun n => pairR4 X (dispTab rint X (Impl.logFr n)).get 0)
+        = fun n => pairR4 Xu (dispTab rint Xu (Impl.logFr n)).get 0 :=
+      funext fun n => (hpair (fun _ _ => true) _ _).2.2.2
+    unfold Impl.logRelaxation
+    dsimp only
+    rw [l1, l2, l3, l4]
+    rfl
+
+/-- every statement of the three routines, of `cage_relative` and of the two constructors that is not
+semantically regenerated is pinned as text: an edit anywhere in the anchored code reaches this obligation -/
+theorem C06_source_shape :
+    relNormalised = ["isf",
+   "qt",
+   "qt2",
+   "r2",
+   "r4"] ∧
+    relPre = ["self.q_const = qconst / self.diameters",
+   "q_const = self.q_const.copy()",
+   "a2_cuts = self.a2_cuts.copy()",
+   "counts = np.zeros(self.snapshots.nsnapshots - 1)",
+   "isf = np.zeros_like(counts)",
+   "qt = np.zeros_like(counts)",
+   "qt2 = np.zeros_like(counts)",
+   "r2 = np.zeros_like(counts)",
+   "r4 = np.zeros_like(counts)"] ∧
+    relBody = ["index = nn - 1",
+   "counts[index] += 1",
+   "pos_init = self.snapshots.snapshots[n - nn].positions",
+   "pos_end = self.snapshots.snapshots[n].positions",
+   "RII = pos_end - pos_init",
+   "if self.PBC:\n    RII = remove_pbc(RII, self.snapshots.snapshots[n - nn].hmatrix, self.ppp)",
+   "if self.neighborlists:\n    RII = cage_relative(RII, self.neighborlists[n - nn])",
+   "if condition is not None:\n    selection = condition[n - nn]\n    q_const = self.q_const[selection]\n    a2_cuts = self.a2_cuts[selection]\n    RII = RII[selection]",
+   "isf[index] += np.cos(RII * q_const[:, np.newaxis]).mean()",
+   "distance = np.square(RII).sum(axis=1)",
+   "if self.cal_type == 'slow':\n    medium = (distance < a2_cuts).mean()\nelse:\n    medium = (distance > a2_cuts).mean()",
+   "qt[index] += medium",
+   "qt2[index] += medium ** 2",
+   "r2[index] += distance.mean()",
+   "r4[index] += np.square(distance).mean()"] ∧
+    relPost = ["isf /= counts",
+   "qt /= counts",
+   "qt2 /= counts",
+   "x4_qt = (qt2 - np.square(qt)) * len(a2_cuts)",
+   "r2 /= counts",
+   "r4 /= counts",
+   "alpha2 = alpha2factor(self.ndim) * r4 / np.square(r2) - 1",
+   "results = np.column_stack((self.time, isf, qt, x4_qt, r2, alpha2))",
+   "results = pd.DataFrame(results, columns='t isf Qt X4_Qt msd alpha2'.split())",
+   "if outputfile:\n    results.to_csv(outputfile, index=False)",
+   "return results"] ∧
+    logPre = ["self.q_const = qconst / self.diameters",
+   "q_const = self.q_const.copy()",
+   "a2_cuts = self.a2_cuts.copy()",
+   "isf = np.zeros_like(self.time)",
+   "qt = np.zeros_like(self.time)",
+   "r2 = np.zeros_like(self.time)",
+   "r4 = np.zeros_like(self.time)"] ∧
+    logBody = ["index = n - 1",
+   "pos_init = self.snapshots.snapshots[0].positions",
+   "pos_end = self.snapshots.snapshots[n].positions",
+   "RII = pos_end - pos_init",
+   "if self.PBC:\n    RII = remove_pbc(RII, self.snapshots.snapshots[0].hmatrix, self.ppp)",
+   "if self.neighborlists.any():\n    RII = cage_relative(RII, self.neighborlists)",
+   "if condition is not None:\n    q_const = self.q_const[condition]\n    a2_cuts = self.a2_cuts[condition]\n    RII = RII[condition]",
+   "isf[index] = np.cos(RII * q_const[:, np.newaxis]).mean()",
+   "distance = np.square(RII).sum(axis=1)",
+   "if self.cal_type == 'slow':\n    medium = (distance < a2_cuts).mean()\nelse:\n    medium = (distance > a2_cuts).mean()",
+   "qt[index] = medium",
+   "r2[index] = distance.mean()",
+   "r4[index] = np.square(distance).mean()"] ∧
+    logPost = ["x4_qt = np.zeros_like(qt)",
+   "alpha2 = alpha2factor(self.ndim) * r4 / np.square(r2) - 1",
+   "results = np.column_stack((self.time, isf, qt, x4_qt, r2, alpha2))",
+   "results = pd.DataFrame(results, columns='t isf Qt X4_Qt msd alpha2'.split())",
+   "if outputfile:\n    results.to_csv(outputfile, index=False)",
+   "return results"] ∧
+    sq4Pre = ["if self.x_snapshots is None:\n    logger.info('Use xu coordinates for dynamics and x/xs coordinates for Sq4')\n    snapshots = self.snapshots\nelse:\n    logger.info('Use only xu or x/xs for calculating both dynamics and Sq4')\n    snapshots = self.x_snapshots",
+   "twopidl = 2 * np.pi / snapshots.snapshots[0].boxlength",
+   "numofq = int(qrange * 2.0 / twopidl.min())",
+   "qvector = choosewavevector(ndim=self.ndim, numofq=numofq, onlypositive=False)",
+   "n_t = round(t / self.time[0])",
+   "ave_sqresults = 0"] ∧
+    sq4Body = ["pos_init = self.snapshots.snapshots[n].positions",
+   "pos_end = self.snapshots.snapshots[n + n_t].positions",
+   "RII = pos_end - pos_init",
+   "if self.PBC:\n    RII = remove_pbc(RII, self.snapshots.snapshots[n].hmatrix, self.ppp)",
+   "if self.neighborlists:\n    RII = cage_relative(RII, self.neighborlists[n])",
+   "RII = np.square(RII).sum(axis=1)",
+   "if self.cal_type == 'slow':\n    mobility_condition = RII < self.a2_cuts\nelse:\n    mobility_condition = RII > self.a2_cuts",
+   "if condition is not None:\n    mobility_condition *= condition[n].astype(bool)",
+   "ave_sqresults += conditional_sq(snapshots.snapshots[n], qvector=qvector, condition=mobility_condition)[1]"] ∧
+    sq4Post = ["ave_sqresults /= self.snapshots.nsnapshots - n_t",
+   "if outputfile:\n    ave_sqresults.to_csv(outputfile, index=False)",
+   "return ave_sqresults"] ∧
+    cageBody = ["RII_relative = np.zeros_like(RII)",
+   "for i in range(RII.shape[0]):\n    i_neighbors = cnlist[i, 1:cnlist[i, 0] + 1]\n    RII_relative[i] = RII[i] - RII[i_neighbors].mean(axis=0)",
+   "return RII_relative"] ∧
+    linInit = ["self.ppp = ppp",
+   "self.ndim = len(ppp)",
+   "self.cal_type = cal_type",
+   "if x_snapshots and xu_snapshots:\n    self.snapshots = xu_snapshots\n    self.x_snapshots = x_snapshots\n    self.PBC = False\n    if xu_snapshots.nsnapshots != x_snapshots.nsnapshots:\n        raise ValueError('incompatible x/xs and xu format coordinates')\nelif xu_snapshots and (not x_snapshots):\n    self.snapshots = xu_snapshots\n    self.x_snapshots = None\n    self.PBC = False\nelif x_snapshots and (not xu_snapshots):\n    self.snapshots = x_snapshots\n    self.x_snapshots = None\n    self.PBC = True\n    if not ppp.any():\n        raise ValueError('No periodic boundary conditions provided')",
+   "timesteps = [snapshot.timestep for snapshot in self.snapshots.snapshots]",
+   "self.time = (np.array(timesteps)[1:] - timesteps[0]) * dt",
+   "self.diameters = pd.Series(self.snapshots.snapshots[0].particle_type).map(diameters).values",
+   "self.a2_cuts = np.square(self.diameters * a)",
+   "self.neighborlists = []",
+   "if neighborfile:\n    fneighbor = open(neighborfile, 'r', encoding='utf-8')\n    for n in range(self.snapshots.nsnapshots):\n        medium = read_neighbors(f=fneighbor, nparticle=self.snapshots.snapshots[n].nparticle, Nmax=max_neighbors)\n        self.neighborlists.append(medium)\n    fneighbor.close()"] ∧
+    logInitLines = ["self.ppp = ppp",
+   "self.ndim = len(ppp)",
+   "self.cal_type = cal_type",
+   "if x_snapshots and xu_snapshots:\n    self.snapshots = xu_snapshots\n    self.x_snapshots = x_snapshots\n    self.PBC = False\n    if xu_snapshots.nsnapshots != x_snapshots.nsnapshots:\n        raise ValueError('incompatible x/xs and xu format coordinates')\nelif xu_snapshots and (not x_snapshots):\n    self.snapshots = xu_snapshots\n    self.x_snapshots = None\n    self.PBC = False\nelif x_snapshots and (not xu_snapshots):\n    self.snapshots = x_snapshots\n    self.x_snapshots = None\n    self.PBC = True\n    if not ppp.any():\n        raise ValueError('No periodic boundary conditions provided')",
+   "timesteps = [snapshot.timestep for snapshot in self.snapshots.snapshots]",
+   "self.time = (np.array(timesteps)[1:] - timesteps[0]) * dt",
+   "self.diameters = pd.Series(self.snapshots.snapshots[0].particle_type).map(diameters).values",
+   "self.a2_cuts = np.square(self.diameters * a)",
+   "if neighborfile:\n    fneighbor = open(neighborfile, 'r', encoding='utf-8')\n    self.neighborlists = read_neighbors(f=fneighbor, nparticle=self.snapshots.snapshots[0].nparticle, Nmax=max_neighbors)\n    fneighbor.close()\nelse:\n    self.neighborlists = np.zeros(3)"] ∧
+    sq4Lag = "round(t / self.time[0])" :=
+  ⟨rfl, rfl, rfl, rfl, rfl, rfl, rfl, rfl, rfl, rfl, rfl, rfl, rfl, rfl⟩
+
 end Pms.Dyn
